@@ -1295,3 +1295,21 @@ def stage(name, top):
 
 def tags(name):
     return DESIGNS[name]["tags"]
+
+
+_STD_NAMES = ["sync_flag_tx", "sync_flag_rx", "mailbox_data", "temp", "sig", "var", "proc", "logic", "buffer_y"]
+
+
+def object_names(name, params):
+    """Names that objects of the design (ports, named signals, processes, std helpers) get in the VHDL:
+    candidates for `additional_reserved_names` that collide with the design's own names."""
+    src = render(name, params)
+    found = re.findall(r"^\s+(\w+) = Port\.", src, re.M) + re.findall(r'name="(\w+)"', src)
+    found += re.findall(r"^\s+(?:async )?def (\w+)\(", src, re.M)
+    found += re.findall(r"^\s+(\w+) = (?:Signal|Variable)\[", src, re.M)
+    found += re.findall(r'"([a-z_]\w*)"', src)
+    out = []
+    for n in found + _STD_NAMES:
+        if n not in out and n not in ("architecture", "__init__"):
+            out.append(n)
+    return out
